@@ -202,8 +202,12 @@ class Runner:
             return
         if type(n).__name__ == "LLeafB":
             self._replace(n, {"s": n.s + "x"})
+        elif v % 4 == 3 and n.v in (0, 1):
+            # same value under ==, other type: still a different content
+            self.lab.tag("replace-type-only")
+            self._replace(n, {"v": int(n.v) if isinstance(n.v, bool) else bool(n.v)})
         else:
-            self._replace(n, {"v": (n.v + 1 + v) % 5})
+            self._replace(n, {"v": (int(n.v) + 1 + v) % 5})
 
     def op_replace_child(self, s: int, cs: int, which: int) -> None:
         w = self.w
